@@ -89,7 +89,7 @@ func init() {
 	}, 3, 4)
 	core.Register(&core.Check{
 		ID: "C11", Level: "model_checking",
-		Rule:   "same explicit-state search as C07 (29 operations, all sequences up to depth 3/5, exact-limb state keys); in every distinct state MapToScalarField(r_i) = reference LE(x/y mod p) mod r, equal for all representations of one class reached along different paths (hash set over all visited classes), different for different classes (injectivity on the visited classes), BatchMapToScalarField on every register ordering incl. a duplicate equals the single calls; plus batches of lengths 0..8192 (incl. 127..129, 511..513, 1000, 1024, 1025, 2048, 4095..4097, 8192) with duplicates and the identity under several CPU counts, results read through the caller's own (pre-filled) variables, length mismatch = error; non-trivial = every visited state",
+		Rule:   "same explicit-state search as C07 (31 operations, all sequences up to depth 3 (4 thorough), exact-limb state keys); in every distinct state MapToScalarField(r_i) = reference LE(x/y mod p) mod r, equal for all representations of one class reached along different paths (hash set over all visited classes), different for different classes (injectivity on the visited classes), BatchMapToScalarField on every register ordering incl. a duplicate equals the single calls; plus batches of lengths 0..8192 (incl. 127..129, 511..513, 1000, 1024, 1025, 2048, 4095..4097, 8192) with duplicates and the identity under several CPU counts, results read through the caller's own (pre-filled) variables, length mismatch = error; non-trivial = every visited state",
 		Assume: []string{"reference: x/y over math/big, little-endian integer value reduced mod r", "class identity from the reference group law along the same history"},
 		Units: func(ctx *core.Ctx) []core.Unit {
 			us := base(ctx)
